@@ -2847,11 +2847,15 @@ void Validator::ValidatorImpl::buildComponentIdMap(const ComponentPtr &component
             auto equivParent = owningComponent(equiv);
             if (equivParent != nullptr) {
                 // Skipping half of the equivalences to avoid duplicate reporting.
+                // Note: different (variable, component) pairs may give the same
+                //       concatenated string (e.g., 'ab' + 'c' and 'a' + 'bc'), in
+                //       which case the names of the variables decide.
                 std::string s1 = item->name() + component->name();
                 std::string s2 = equiv->name() + equivParent->name();
+                bool firstHalf = (s1 < s2) || ((s1 == s2) && (item->name() < equiv->name()));
                 std::string mappingId = Variable::equivalenceMappingId(item, equiv);
                 // Variable mapping.
-                if ((s1 < s2) && !mappingId.empty()) {
+                if (firstHalf && !mappingId.empty()) {
                     std::string mappingDescription =
                         "between variable '" + item->name() + "' in component '" + component->name()
                         + "' and variable '" + equiv->name() + "' in component '" + equivParent->name() + "'";
@@ -2869,8 +2873,8 @@ void Validator::ValidatorImpl::buildComponentIdMap(const ComponentPtr &component
                 }
                 // Connections.
                 auto connectionId = Variable::equivalenceConnectionId(item, equiv);
-                std::string connection = component->name() < equivParent->name() ? component->name() + equivParent->name() : equivParent->name() + component->name();
-                if ((s1 < s2) && !connectionId.empty() && (reportedConnections.count(connection) == 0)) {
+                std::string connection = component->name() < equivParent->name() ? component->name() + "|" + equivParent->name() : equivParent->name() + "|" + component->name();
+                if (firstHalf && !connectionId.empty() && (reportedConnections.count(connection) == 0)) {
                     std::string connectionDescription =
                         "between components '" + component->name() + "' and '" + equivParent->name()
                         + "' because of variable equivalence between variables '" + item->name()
